@@ -26,6 +26,7 @@ type PropSpec struct {
 	NotCovered []string
 	Assumes    []string
 	Bounded    []string
+	BoundedRuns []boundedRun // bounded stand-ins executed on the real code (bounded.go)
 	Replays    map[string]string // obligation-name regexp -> replay template
 	DeadCovers map[string]bool
 }
@@ -64,6 +65,12 @@ func loadProp(path string) (*PropSpec, error) {
 			ps.Assumes = append(ps.Assumes, rest)
 		case "bounded":
 			ps.Bounded = append(ps.Bounded, rest)
+		case "boundedrun":
+			f := strings.Fields(rest)
+			if len(f) != 2 {
+				return nil, fmt.Errorf("%s: boundedrun wants <template.go> <label>", path)
+			}
+			ps.BoundedRuns = append(ps.BoundedRuns, boundedRun{Template: f[0], Label: f[1]})
 		case "deadcover":
 			// a contract point that is unreachable on the unchanged tree
 			// (dead code after inlining constants); not a vacuity alarm
@@ -141,6 +148,8 @@ func main() {
 		}
 	case "check":
 		os.Exit(cmdCheck(os.Args[2:]))
+	case "replay":
+		os.Exit(cmdReplay(os.Args[2:]))
 	default:
 		fmt.Fprintln(os.Stderr, "unknown command")
 		os.Exit(2)
@@ -161,6 +170,7 @@ func cmdCheck(args []string) int {
 	dump := fs.String("dump", "", "directory to dump all queries into")
 	only := fs.String("only", "", "regexp: only obligations whose name matches")
 	verbose := fs.Bool("v", false, "verbose")
+	noSolve := fs.Bool("nosolve", false, "with --dump: write the queries and stop")
 	fs.Parse(args)
 	start := time.Now()
 	seed := 0
@@ -174,19 +184,37 @@ func cmdCheck(args []string) int {
 	if ps.ID == "" {
 		ps.ID = *propID
 	}
-	prog, err := loadProgram(*repo, ps.Packages)
-	if err != nil {
-		fmt.Fprintln(os.Stderr, "govc: load failed:", err)
-		return 2
+	// bounded stand-ins run beside the proof (they only need the go tool)
+	boundedResults = nil
+	boundedDone := make(chan boundedResult, len(ps.BoundedRuns))
+	nBounded := 0
+	for _, br := range ps.BoundedRuns {
+		if *only != "" {
+			if ok, _ := regexp.MatchString(*only, "bounded:"+br.Label); !ok {
+				continue
+			}
+		}
+		nBounded++
+		go func(br boundedRun) { boundedDone <- runBounded(*verif, *repo, *tier, seed, br) }(br)
 	}
+	var prog *Program
 	specs := newSpecDB()
-	if err := specs.loadExterns(filepath.Join(*verif, "govc", "externs")); err != nil {
-		fmt.Fprintln(os.Stderr, "govc: extern contracts:", err)
-		return 2
-	}
-	if err := specs.loadRepoContracts(prog); err != nil {
-		fmt.Fprintln(os.Stderr, "govc: contracts:", err)
-		return 2
+	if len(ps.Funcs) > 0 || len(ps.Lemmas) > 0 {
+		// (a property decided only by bounded stand-ins loads nothing)
+		var err error
+		prog, err = loadProgram(*repo, ps.Packages)
+		if err != nil {
+			fmt.Fprintln(os.Stderr, "govc: load failed:", err)
+			return 2
+		}
+		if err := specs.loadExterns(filepath.Join(*verif, "govc", "externs")); err != nil {
+			fmt.Fprintln(os.Stderr, "govc: extern contracts:", err)
+			return 2
+		}
+		if err := specs.loadRepoContracts(prog); err != nil {
+			fmt.Fprintln(os.Stderr, "govc: contracts:", err)
+			return 2
+		}
 	}
 	loadMs := time.Since(start).Milliseconds()
 
@@ -283,9 +311,15 @@ func cmdCheck(args []string) int {
 			os.WriteFile(filepath.Join(*dump, fmt.Sprintf("%03d-%s.smt2", i, sanitize(it.o.Name))), []byte("; "+it.o.Name+"\n; "+it.o.Src+"\n"+it.vc.queryText(it.o, true)), 0o644)
 		}
 	}
-	timeout := 10000
+	if *noSolve {
+		fmt.Printf("%d queries written to %s\n", len(items), *dump)
+		return 0
+	}
+	// nominal effort per obligation in milliseconds on an idle machine; the
+	// z3 solvers get it as a deterministic resource limit (solve.go)
+	timeout := 20000
 	if *tier == "thorough" {
-		timeout = 60000
+		timeout = 120000
 	}
 	for _, vc := range vcs {
 		vc.slicer() // built once, before the parallel phase
@@ -296,6 +330,10 @@ func cmdCheck(args []string) int {
 		jobs = n
 	}
 	dischargeAll(items, scratch, timeout, jobs)
+	thoroughCross, thoroughTeeth = nil, nil
+	if *tier == "thorough" && *only == "" {
+		thoroughCross = crossCheck(items, scratch, 20000, jobs)
+	}
 	solveWall := time.Since(solveStart).Seconds()
 
 	// ------------------------------------------------------------ verdicts
@@ -329,7 +367,7 @@ func cmdCheck(args []string) int {
 			nDis++
 			bySolver[o.Solver]++
 			if len(samples) < 12 {
-				samples = append(samples, map[string]interface{}{"obligation": o.Name, "kind": o.Kind, "clause": o.Src, "solver": o.Solver, "ms": o.Ms})
+				samples = append(samples, map[string]interface{}{"obligation": o.Name, "kind": o.Kind, "clause": o.Src, "solver": o.Solver, "ms": o.Ms, "rlimit": o.Rlimit})
 			}
 			continue
 		}
@@ -344,7 +382,7 @@ func cmdCheck(args []string) int {
 	}
 	if *verbose {
 		for _, it := range items {
-			fmt.Fprintf(os.Stderr, "%-16s %6dms %-8s %s\n", it.o.Status, it.o.Ms, it.o.Solver, it.o.Name)
+			fmt.Fprintf(os.Stderr, "%-16s %6dms %10d %-8s %s\n", it.o.Status, it.o.Ms, it.o.Rlimit, it.o.Solver, it.o.Name)
 		}
 		for _, vc := range vcs {
 			for _, w := range vc.warnings {
@@ -354,6 +392,9 @@ func cmdCheck(args []string) int {
 	}
 	exit := 0
 	outDir := filepath.Join(*verif, "out", "replays")
+	if d := os.Getenv("GOVC_REPLAY_DIR"); d != "" {
+		outDir = d // self-tests on mutated scratch trees keep their replay files apart
+	}
 	os.MkdirAll(outDir, 0o755)
 	violations := 0
 	for _, name := range bindingFailures {
@@ -407,7 +448,50 @@ func cmdCheck(args []string) int {
 		f := isKnown(o.Name)
 		fmt.Printf("KNOWN-FINDING: property=%s %s %s\n", ps.ID, o.Name, f.Text)
 	}
-	if nObl == 0 && len(bindingFailures) == 0 {
+	// bounded stand-ins: every failing input is a violation replayed on the
+	// real code by construction; an inconclusive run is an infrastructure failure
+	boundedInfra := false
+	for i := 0; i < nBounded; i++ {
+		br := <-boundedDone
+		boundedResults = append(boundedResults, br)
+		name := "bounded:" + br.Label
+		switch br.Status {
+		case "failed":
+			path := filepath.Join(outDir, fmt.Sprintf("%s-bounded-%s.json", ps.ID, sanitize(br.Label)))
+			writeJSON(path, map[string]interface{}{"property": ps.ID, "obligation": name, "kind": "bounded", "clause": br.Rule, "status": "failed-input",
+				"verdict": "confirmed", "failing_inputs": br.Failures, "pkgdir": br.Pkgdir, "template": br.Template, "tier": *tier, "seed": strconv.Itoa(seed),
+				"go_test_source": br.Source, "go_test_output": truncate(br.Output, 8000)})
+			if f := isKnown(name); f != nil {
+				fmt.Printf("KNOWN-FINDING: property=%s %s %s\n", ps.ID, name, f.Text)
+			} else {
+				violations++
+				fmt.Printf("VIOLATION property=%s replay=%s obligation=%s input=%s\n", ps.ID, path, name, truncate(br.Failures[0], 300))
+				exit = 1
+			}
+		case "ok":
+		default:
+			fmt.Fprintf(os.Stderr, "govc: bounded stand-in %s (%s) was inconclusive (build failure, panic or timeout):\n%s\n", br.Label, br.Template, truncate(tailLines(br.Output, 30), 4000))
+			boundedInfra = true
+		}
+	}
+	sort.Slice(boundedResults, func(i, j int) bool { return boundedResults[i].Label < boundedResults[j].Label })
+	if boundedInfra {
+		return 2
+	}
+	if thoroughCross != nil && len(thoroughCross.Disagreements) > 0 {
+		for _, d := range thoroughCross.Disagreements {
+			fmt.Fprintln(os.Stderr, "govc: SOLVER DISAGREEMENT:", d)
+		}
+		writeEvidence(*verif, ps, *tier, seed, nObl, nDis, nCover, funcsUnderContract, bySolver, samples, vcs, float64(solverMs)/1000, time.Since(start).Seconds(), violations, known, loadMs, genMs, solveWall, true)
+		return 2
+	}
+	if *tier == "thorough" && *only == "" && os.Getenv("GOVC_NO_TEETH") == "" {
+		thoroughTeeth = runTeeth(*verif, *repo, ps.ID)
+		for _, m := range thoroughTeeth.Missed {
+			fmt.Fprintf(os.Stderr, "govc: WARNING: must-fail mutant not caught (a contract lost strength; the verdict about this tree is unaffected): %s\n", m)
+		}
+	}
+	if nObl == 0 && len(bindingFailures) == 0 && nBounded == 0 {
 		fmt.Fprintln(os.Stderr, "govc: zero obligations generated; vacuity guard failed")
 		return 2
 	}
@@ -455,11 +539,15 @@ func writeEvidence(verif string, ps *PropSpec, tier string, seed, nObl, nDis, nC
 	for _, o := range known {
 		kf = append(kf, o.Name)
 	}
+	level := "proof"
+	if nObl == 0 && len(boundedResults) > 0 {
+		level = "exploration"
+	}
 	ev := map[string]interface{}{
 		"property_id": ps.ID,
 		"tier":        tier,
 		"seed":        seed,
-		"level":       "proof",
+		"level":       level,
 		"coverage": map[string]interface{}{
 			"obligations":              nObl,
 			"discharged":               nDis,
@@ -476,11 +564,44 @@ func writeEvidence(verif string, ps *PropSpec, tier string, seed, nObl, nDis, nC
 			"known_findings":           kf,
 			"translator_warnings":      keys(warnings),
 			"bounded_checks":           ps.Bounded,
+			"bounded_runs":             boundedResults,
+			"thorough_cross_check":     thoroughCross,
+			"thorough_teeth_run":       thoroughTeeth,
 			"vacuity_guard_failed":     vacuous,
 		},
 		"assumptions": as,
 		"wall_s":      wall,
 		"violations":  violations,
+	}
+	if len(boundedResults) > 0 {
+		// exploration-style counts of the bounded stand-ins (measured by the
+		// stand-ins themselves); they are never added to obligations/discharged
+		cov := ev["coverage"].(map[string]interface{})
+		ne, nd := 0, 0
+		exh := true
+		var rules, bsamples []string
+		for _, br := range boundedResults {
+			ne += br.Evaluations
+			nd += br.Distinct
+			exh = exh && br.Exhaustive
+			rules = append(rules, br.Label+": "+br.Rule+" Bound: "+br.Bound)
+			for _, sm := range br.Samples {
+				bsamples = append(bsamples, br.Label+": "+sm)
+			}
+		}
+		cov["evaluations"] = ne
+		cov["distinct_nontrivial"] = nd
+		cov["exhaustive"] = exh
+		cov["rule"] = "bounded stand-ins (never counted as proved): " + strings.Join(rules, " | ")
+		if level == "exploration" {
+			var ss []interface{}
+			for _, b := range bsamples {
+				ss = append(ss, b)
+			}
+			cov["samples"] = ss
+		} else {
+			cov["bounded_samples"] = bsamples
+		}
 	}
 	// self-tests on deliberately broken trees must not overwrite the evidence
 	// of the unchanged tree
@@ -490,6 +611,17 @@ func writeEvidence(verif string, ps *PropSpec, tier string, seed, nObl, nDis, nC
 	}
 	os.MkdirAll(evdir, 0o755)
 	writeJSON(filepath.Join(evdir, ps.ID+".json"), ev)
+}
+
+// boundedResults holds the results of this run's bounded stand-ins.
+var boundedResults []boundedResult
+
+func tailLines(s string, n int) string {
+	ls := strings.Split(strings.TrimRight(s, "\n"), "\n")
+	if len(ls) > n {
+		ls = ls[len(ls)-n:]
+	}
+	return strings.Join(ls, "\n")
 }
 
 func keys(m map[string]bool) []string {
